@@ -198,3 +198,9 @@ Proof.
         intros j n cs' Hj. destruct (Hk j n cs' Hj) as (r' & Hr' & Hrec). exists r'. split; [|exact Hrec].
         replace (dr_kid0 r - k + j)%nat with (S (dr_kid0 r - S k + j)) by lia. exact Hr'.
 Qed.
+
+Print Assumptions ul_bfs_linked.
+Print Assumptions ul_bfs_length.
+Print Assumptions ul_bfs_files.
+Print Assumptions ul_bfs_forall.
+Print Assumptions ul_bfs_chain.
